@@ -19,6 +19,8 @@ computed over exactly the object's bytes" — it holds for every hash function.
 -/
 namespace KafVerif.LfsHttp
 
+def c1' : Chunk := ⟨2, 7⟩
+
 def nums (k : Nat) : List Nat := (List.range k).map (· + 1)
 
 structure SInv (st : St) (s : Sess) : Prop where
@@ -308,6 +310,32 @@ theorem _root_.KafVerif.C32.produce_ok_sound (maxBlob : Int) (alg : Alg) (ck : C
       have hb := acked_of_200 b h
       refine ⟨trivial, by simp [h], hb, ?_, uploadStream_ok hu⟩
       cases b <;> simp_all [acked, produceStatus]
+
+/-! ### the produce-ack predicate is `code = 0`, over ALL int16/Int codes (negative ones included) -/
+
+/-- **C32 (ack predicate).** A produce response that mentions our partition counts as an
+acknowledgement exactly when its error code is 0 — every other code, positive or NEGATIVE
+(−1 = UNKNOWN_SERVER_ERROR is what the broker answers on internal produce faults), is an error. -/
+theorem _root_.KafVerif.C32.ack_iff_code_zero (n : Int) :
+    (produceStatus (.code n) = 200 ↔ n = 0) ∧ (acked (.code n) = true ↔ n = 0) ∧
+    (n ≠ 0 → produceStatus (.code n) = 502) := by
+  refine ⟨?_, ?_, ?_⟩
+  · simp only [produceStatus]
+    split <;> simp_all
+  · simp [acked]
+  · intro h; simp [produceStatus, h]
+
+/-- the variant that rejects only positive codes (`ErrorCode > 0`) -/
+def produceStatusPositiveOnly : Broker → Nat
+  | .ack => 200
+  | .refuse => 503
+  | .code n => if n > 0 then 502 else 200
+  | _ => 502
+
+/-- witness: with `> 0` the reply code −1 yields 200 although the broker did not acknowledge -/
+theorem _root_.KafVerif.C32.ackPositiveOnly_violates :
+    ∃ b, (produceWith produceStatusPositiveOnly 0 .sha256 .absent [c1'] .none b).status = 200 ∧ acked b = false :=
+  ⟨.code (-1), by decide⟩
 
 /-! ### the code before the fixes violates the property (kept so a regression is recognised) -/
 
